@@ -517,11 +517,10 @@ func (bkt *Bucket) incr(ki *KeyInfo, value int) int {
 			if len(tofree.Body) > 22 {
 				logger.Warnf("incr with large value %s...", string(tofree.Body[:22]))
 				errFlag = true
-				return 0
 			}
 			s := string(tofree.Body)
 			v, err := strconv.Atoi(s)
-			if err != nil {
+			if err != nil && !errFlag {
 				errFlag = true
 				logger.Warnf("incr with value %s", s)
 			}
